@@ -117,8 +117,109 @@ def r2(ctx, F):
                               "`%s` calls the type_matches_value vtable op directly" % s, fn=f, line=c.line)
 
 
+def r3_star_params(ctx, F):
+    """the annotation T of `*args: T` / `**kwargs: T` is the type of each collected argument (the static checker types
+    the parameters tuple[T, ...] / dict[str, T]): the runtime parameter check either applies T to every element of the
+    args tuple and every value of the kwargs dict, or the compiler wraps T into the container type when it compiles
+    the parameter. Checking the whole tuple / dict against T rejects every well-typed call."""
+    from kern import origins
+    cp = F.one(r"eval::compiler::def::DefGen::<V>::check_parameter_types$")
+    bodies = [cp] + [g for c in cp.calls if not c.indirect for g in [F.fns.get(c.callee_uid())]
+                     if g is not None and g.crate == "starlark" and "eval/compiler/def" in g.span]
+    elem = {"tuple": False, "dict": False}
+    n = 0
+    for g in bodies:
+        for c in g.calls:
+            if c.bb in g.cleanup or not re.search(r"TypeCompiled::<V>::check_type$", c.name) or len(c.args) < 2:
+                continue
+            n += 1
+            os_ = origins(g, c.args[1], pass_calls=re.compile(
+                r"(Iterator>::next$|Iterator::next$|IntoIterator>::into_iter$|IntoIterator for .*>::into_iter$|"
+                r"Option::<.*>::(map_or|unwrap\w*|map)$|Deref>::deref$|Try>::branch$|iter$|copied$)"),
+                through_all_args=True)
+            names = {o[1].name for o in os_ if o[0] == "call"}
+            if any(re.search(r"tuple::refs::TupleRef::<'v>::(from_value|content)$|Tuple::<'v>::content$", x) for x in names):
+                elem["tuple"] = True
+            if any(re.search(r"dict::value::Dict::<'v>::values$|DictRef::<'v>::(values|iter)|Dict::<'v>::iter", x)
+                   for x in names):
+                elem["dict"] = True
+    par = F.one(r"eval::compiler::def::<impl eval::compiler::Compiler<'_, '_, '_, '_>>::parameter$")
+    wraps = {"tuple": any(re.search(r"typing::ty::Ty::tuple_of$", c.name) for c in par.calls),
+             "dict": any(re.search(r"typing::ty::Ty::dict$", c.name) for c in par.calls)}
+    for k, what in (("tuple", "*args"), ("dict", "**kwargs")):
+        ctx.check(elem[k] or wraps[k], "C16.R3", "star-param-elementwise:" + what,
+                  "the annotation of %s is applied %s" % (what, "to each element at run time" if elem[k] else
+                                                         "after being wrapped into the container type at compile time"),
+                  "the annotation T of `%s: T` is checked against the whole %s: the static checker (Param::args / "
+                  "Param::kwargs) reads it as the type of each collected argument, so `def f(%s: int)` rejects every "
+                  "call the static checker accepts" % (what, k, what), fn=cp)
+    ctx.floor("C16.R3", "check_type calls in the parameter check", n, 1)
+
+
+def r4_union_exact(ctx, F):
+    """normalising a union keeps its alternatives: Ty::unions may sort, deduplicate and drop Never, but building ONE
+    container alternative out of two (list[A] | list[B] -> list[A | B]) makes the runtime matcher built from that Ty
+    accept values neither alternative denotes"""
+    from kern import origins
+    fs = F.find(r"typing::ty::Ty::unions(::\{closure#\d+\})?$")
+    if not fs:
+        ctx.bad("C16.R4", "unions:anchor", "anchor-missing: Ty::unions")
+        return
+    n = 0
+    for f in fs:
+        for st in f.stmts:
+            m = re.match(r"agg adt typing::basic::TyBasic::(\w+)$", st.kind)
+            if not m or st.bb in f.cleanup:
+                continue
+            n += 1
+            merged = False
+            for op in " | ".join(st.ops).split(" | "):
+                for o in origins(f, op):
+                    if o[0] == "call" and re.search(r"typing::arc_ty::ArcTy::union2$|typing::ty::Ty::union2$|"
+                                                    r"typing::ty::Ty::unions$", o[1].name):
+                        merged = True
+            ctx.check(not merged, "C16.R4", "union-merges:" + m.group(1),
+                      "alternative kept as written",
+                      "Ty::unions merges two `%s` alternatives into one whose parameters are the unions of theirs: "
+                      "the type no longer denotes exactly the values of its alternatives" % m.group(1).lower(),
+                      fn=f, line=st.line)
+    ctx.floor("C16.R4", "TyBasic alternatives built while normalising a union", n, 3)
+
+
+COARSE_ORD = r"typing::(basic::TyBasic|ty::Ty|starlark_value::TyStarlarkValue|arc_ty::ArcTy)\b"
+
+
+def r5_no_ordered_dedup_of_types(ctx, F):
+    """TyStarlarkValue is equal by type id but ordered by type name only (two host types may share a name), and TyBasic /
+    Ty / ArcTy contain it: their Ord is coarser than their Eq. They are therefore never keys of an ordered collection
+    (BTreeSet/BTreeMap, which deduplicate by Ord) nor deduplicated by a comparison - a union would silently lose an
+    alternative, and values of the lost type stop matching it."""
+    ord_impl = [i for i in F.impls if i["crate"] == "starlark" and re.search(r"std::cmp::Ord$", i["trait"])
+                and re.search(r"typing::starlark_value::TyStarlarkValue$", i["selfty"])]
+    ctx.check(len(ord_impl) == 1, "C16.R5", "anchor:TyStarlarkValue-Ord", "TyStarlarkValue has a hand-written Ord",
+              "anchor-missing: Ord impl of TyStarlarkValue (found %d)" % len(ord_impl))
+    n = 0
+    for f in F.fns.values():
+        if f.crate != "starlark":
+            continue
+        for c in f.calls:
+            if c.indirect or c.bb in f.cleanup:
+                continue
+            if re.search(r"BTree(Set|Map)(::)?<\s*" + COARSE_ORD, c.full) or (
+                    re.search(r"::(dedup_by|dedup_by_key|binary_search\w*)$", c.name) and re.search(COARSE_ORD, c.full)):
+                n += 1
+                ctx.bad("C16.R5", "ordered-collection-of-types:%s:%s" % (short_fn(top_fn(F, f).qpath), c.name.split("::")[-1]),
+                        "`%s` keeps typing types in an ordered collection / deduplicates them by comparison (`%s`): their "
+                        "Ord compares StarlarkValue types by name only, so two distinct types with the same name collapse "
+                        "into one alternative" % (short_fn(top_fn(F, f).qpath), c.full[-110:]), fn=f, line=c.line)
+    ctx.ok("C16.R5", "no-ordered-collection-of-types", "no BTreeSet/BTreeMap/dedup_by over TyBasic/Ty/TyStarlarkValue (%d found)" % n)
+
+
 def run(ctx):
     F = ctx.facts("core")
+    r3_star_params(ctx, F)
+    r5_no_ordered_dedup_of_types(ctx, F)
+    r4_union_exact(ctx, F)
     r1(ctx, F)
     r1b(ctx, F)
     r2(ctx, F)
